@@ -170,6 +170,7 @@ let prim_of_string = function
   | "bigdec" -> PBigDecimal | "weekday" -> PWeekday | "month" -> PMonth | "fixedoffset" -> PFixedOffset
   | "tz" -> PTz | "dt_utc" -> PDateTimeUtc | "ndate" -> PNaiveDate | "ntime" -> PNaiveTime
   | "ndt" -> PNaiveDateTime | "dt_local" -> PDateTimeLocal | "dt_fixed" -> PDateTimeFixed | "dt_tz" -> PDateTimeTz
+  | "varu32" -> PVarU32 | "vari32" -> PVarI32
   | p -> failwith ("bad prim " ^ p)
 
 let rec ty_of_sx (s : sx) : ty =
@@ -385,6 +386,21 @@ let codec_line (l : string) : string =
        | Panic p -> "panic " ^ pkind_str p ^ " ; -"
        | Fuel -> "fuel ; -")
   | "dec", [t; Atom h] -> dec_model (ty_of_sx t) (unhex h)
+  | "reenc", [t; Atom h] ->
+      (* decode (reference decoder), then encode the decoded value as it stands (sets and maps in the
+         order of the input): `ok HEX REST` *)
+      let t = ty_of_sx t and bs = unhex h in
+      let fuel = nat_of_int (64 + 4 * List.length bs) in
+      (match decodeA fuel !cur_env t bs [] with
+       | Ok ((v, rest), _) ->
+           (match enc fuel !cur_env t v [] with
+            | Ok (b, _) -> "ok " ^ hex b ^ " " ^ string_of_int (List.length rest)
+            | Err e -> "encerr " ^ err_class e
+            | Panic p -> "encpanic " ^ pkind_str p
+            | Fuel -> "encfuel")
+       | Err e -> "err " ^ err_class e
+       | Panic p -> "panic " ^ pkind_str p
+       | Fuel -> "fuel")
   | "rt", [t; v; Atom sfx] ->
       let t = ty_of_sx t in
       let v = val_of_sx v in
@@ -508,6 +524,7 @@ let prim_name = function
   | PBigDecimal -> "bigdec" | PWeekday -> "weekday" | PMonth -> "month" | PFixedOffset -> "fixedoffset"
   | PTz -> "tz" | PDateTimeUtc -> "dt_utc" | PNaiveDate -> "ndate" | PNaiveTime -> "ntime"
   | PNaiveDateTime -> "ndt" | PDateTimeLocal -> "dt_local" | PDateTimeFixed -> "dt_fixed" | PDateTimeTz -> "dt_tz"
+  | PVarU32 -> "varu32" | PVarI32 -> "vari32"
 
 let rec show_ty (t : ty) : string =
   match t with
